@@ -60,7 +60,7 @@ Lemma filter_keeps_clean isr a m e l l' :
 Proof.
   intros Hc H.
   assert (G : forall act, run_action isr e (a_cas_failure a) act l = Ok l' -> Forall clean_prompt l').
-  { intros act Ha. destruct act; try (eapply run_simple_keeps_clean; eauto; fail).
+  { intros act Ha. destruct act; try exact (run_simple_keeps_clean isr _ l l' Hc Ha).
     unfold run_action in Ha. destruct (redact_log isr l) as [l1|] eqn:E1; [|discriminate].
     pose proof (redact_log_clean isr l l1 Hc E1) as Hc1.
     destruct (e_cas_ok e).
